@@ -5,7 +5,9 @@ import (
 	"crypto/rand"
 	"encoding/hex"
 	"encoding/json"
+	"errors"
 	"fmt"
+	"io"
 	"math"
 	mrand "math/rand"
 	"net"
@@ -259,6 +261,7 @@ type side struct {
 	cbMu                   sync.Mutex
 	cbCon                  []string
 	pause                  chan struct{} // non-nil: the application's reader does not call Read until it is closed
+	parked                 bool          // the reader waits for pause to be closed (it is not inside Read)
 	failedSawSel           bool          // a Failed notification ran while GetSelectedCandidatePair still returned a pair
 	cbSel                  [][2]string
 	cbCnd                  []string
@@ -575,7 +578,13 @@ func runSession(t *testing.T, cfg *sessCfg, job *sessJob, rng *mrand.Rand, sched
 				hold := sd.pause
 				sd.cbMu.Unlock()
 				if hold != nil { // the application has stopped reading: what arrives now stays in the agent's receive buffer
+					sd.cbMu.Lock()
+					sd.parked = true
+					sd.cbMu.Unlock()
 					<-hold
+					sd.cbMu.Lock()
+					sd.parked = false
+					sd.cbMu.Unlock()
 				}
 				k, rerr := sd.conn.Read(buf)
 				if rerr != nil {
@@ -1079,6 +1088,25 @@ func runSession(t *testing.T, cfg *sessCfg, job *sessJob, rng *mrand.Rand, sched
 			S[c.ag].cbMu.Lock()
 			S[c.ag].pause = make(chan struct{})
 			S[c.ag].cbMu.Unlock()
+		case "ShortRead": // one Read into a buffer shorter than any datagram, while the reader is stopped and not inside Read
+			rec["ag"] = c.ag
+			_ = S[c.ag].conn.SetReadDeadline(time.Now().Add(time.Microsecond)) // nothing waiting: the call comes back empty-handed
+			k, rerr := S[c.ag].conn.Read(make([]byte, 3))
+			_ = S[c.ag].conn.SetReadDeadline(time.Time{})
+			rec["n"] = k
+			switch {
+			case rerr == nil:
+				rec["res"] = "ok"
+			case errors.Is(rerr, io.ErrShortBuffer):
+				rec["res"] = "short"
+			default:
+				var ne net.Error
+				if errors.As(rerr, &ne) && ne.Timeout() {
+					rec["res"] = "empty"
+				} else {
+					rec["res"] = "error: " + rerr.Error()
+				}
+			}
 		case "ResumeRead":
 			rec["ag"] = c.ag
 			S[c.ag].cbMu.Lock()
@@ -1474,6 +1502,10 @@ func runSession(t *testing.T, cfg *sessCfg, job *sessJob, rng *mrand.Rand, sched
 				skip = S[c.ag].pause != nil || S[c.ag].conn == nil || (sn.Conn != "Checking" && sn.Conn != "Connected" && sn.Conn != "Disconnected")
 			case "ResumeRead":
 				skip = S[c.ag].pause == nil
+			case "ShortRead":
+				S[c.ag].cbMu.Lock()
+				skip = S[c.ag].pause == nil || !S[c.ag].parked
+				S[c.ag].cbMu.Unlock()
 			case "AddRemote":
 				if cc, ok := a["c"].(map[string]any); ok {
 					c.i = -1
